@@ -871,4 +871,85 @@ theorem handleWF_runSeq : ∀ (ops : List Op) (s : State), HandleWF s → Handle
     exact handleWF_runSeq os (step s o).1 (handleWF_step s o h)
 
 
+/-! ### C15R5 — the extended calls (`XOp`): isolation -/
+
+
+/-- the context a moved source cell lives in (an element / item below a variable of that context) -/
+def movedFrom (s : State) (v : Nat) : Option Nat :=
+  match liveSlot s v with
+  | some (.ref r) => if refIsVarCell r then none else (match r.root with | .slot a _ => some a | _ => none)
+  | _ => none
+
+/-- `targets` for the extended calls: `rstore` works in its target context and — when it MOVES an element out of a variable
+of a context — in that context too. A store that COPIES a variable of context `a` does not work in `a`. -/
+def targetsX (o : XOp) (s : State) (d : Nat) : Bool :=
+  match o with
+  | .base b => targets b s d
+  | .rstore c _ v => c == d || movedFrom s v == some d
+
+theorem ctxs_moveOut_ne (s : State) (r : VRef) (b : Val) (d : Nat)
+    (h : ∀ a i, r.root = .slot a i → (a == d) = false) : (moveOut s r b).ctxs[d]? = s.ctxs[d]? := by
+  unfold moveOut
+  split
+  · split <;> simp [killBoxItems]
+  · rename_i a id hroot
+    have := h a id hroot
+    split
+    · split
+      · simp [killCtxItems, set_ne this]
+      · rfl
+    · rfl
+  · rfl
+
+theorem stepX_untargeted (s : State) (o : XOp) (d : Nat) (h : targetsX o s d = false) : (stepX s o).1.ctxs[d]? = s.ctxs[d]? := by
+  cases o with
+  | base b => exact step_untargeted s b d h
+  | rstore c sh v =>
+    simp only [targetsX, Bool.or_eq_false_iff] at h
+    obtain ⟨hc, hm⟩ := h
+    simp only [stepX, opRstore, Out.pre, Out.of]
+    split
+    · rename_i x id r hsl hlive
+      split
+      · rfl
+      · split
+        · rename_i b hb
+          split
+          · rfl
+          · split
+            · rename_i x' hst
+              by_cases hvc : refIsVarCell r = true
+              · simp [hvc, killCtxItems, set_ne hc]
+              · simp only [hvc, Bool.false_eq_true, ↓reduceIte]
+                rw [ctxs_moveOut_ne]
+                · simp [killCtxItems, set_ne hc]
+                · intro a i hroot
+                  simp only [movedFrom, hlive, hvc, hroot] at hm
+                  simpa using hm
+            · simp [setErr]
+        · rfl
+    · rfl
+
+def untargetedX (d : Nat) : State → List XOp → Bool
+  | _, [] => true
+  | s, o :: os => !targetsX o s d && untargetedX d (stepX s o).1 os
+
+
+theorem storeInto_val {x x' : Ctx} {id : Nat} {b old : Val} {sy : Sym} (hs : x.syms[id]? = some sy) (hv : x.vals[id]? = some old)
+    (h : storeInto x id b = .ok x') : x'.vals[id]? = some b := by
+  have hlt : id < x.vals.length := by
+    rcases Nat.lt_or_ge id x.vals.length with h | h
+    · exact h
+    · rw [List.getElem?_eq_none h] at hv; cases hv
+  unfold storeInto at h
+  rw [hs, hv] at h
+  simp only at h
+  split at h
+  · cases h; simp [hlt]
+  · split at h
+    · cases h
+    · cases h; simp [hlt]
+
+
+
 end BlocV.C15
